@@ -24,3 +24,39 @@ Print Assumptions C10_shard_trunc_refuted.
 Theorem C10_shardset_exactly_one : forall total id, shardset_ok (shardset total id) = true.
 Proof. exact shardset_exactly_one. Qed.
 Print Assumptions C10_shardset_exactly_one.
+
+(* ---------- workflow.go Run: the launch list (model/Launch.v, compared with the roles the real Run requests on the whole
+   configuration grid by the launch family) ---------- *)
+From WF Require Import model.Strings model.Launch proofs.LaunchProofs.
+From Coq Require Import List.
+
+(* a unit with (resolved) parallel count n gets max 1 n consumers ... *)
+Theorem C10_consumer_count : forall n mk, List.length (sharded n mk) = Z.to_nat (Z.max 1 n).
+Proof. exact sharded_length. Qed.
+Print Assumptions C10_consumer_count.
+
+(* ... "1 of 1" when n < 2, otherwise exactly the shards 1..n of n *)
+Theorem C10_shard_set : forall n mk u,
+  In u (sharded n mk) <-> (n < 2 /\ u = mk 1 1) \/ (2 <= n /\ exists i, 1 <= i <= n /\ u = mk i n).
+Proof. exact sharded_in. Qed.
+Print Assumptions C10_shard_set.
+
+(* exactly the configured units are launched: outbox, delete, paused-retry iff enabled, the shard set of every step and of
+   every connector (per-unit count if set, else the workflow default), poller + inserter per timeout status iff a timeout
+   store is configured, one consumer per registered hook *)
+Theorem C10_launch_exact : forall c u,
+  In u (launch c) <->
+  u = UOutbox \/ u = UDelete \/ (cf_retry c = true /\ u = URetry) \/
+  (exists st, In st (cf_steps c) /\ In u (sharded (resolve (snd st) (cf_default_parallel c)) (UStep (fst st)))) \/
+  (cf_has_tstore c = true /\ exists s, In s (cf_timeouts c) /\ (u = UPoller s \/ u = UInserter s)) \/
+  (exists cn, In cn (cf_connectors c) /\ In u (sharded (resolve (snd cn) (cf_default_parallel c)) (UConn (fst cn)))) \/
+  (exists h, In h (cf_hooks c) /\ u = UHook h).
+Proof. exact launch_units. Qed.
+Print Assumptions C10_launch_exact.
+
+(* ... each exactly once, for every configuration with distinct step statuses, timeout statuses, connector names and hooks *)
+Theorem C10_launch_once : forall c,
+  NoDup (map fst (cf_steps c)) -> NoDup (cf_timeouts c) -> NoDup (map fst (cf_connectors c)) -> NoDup (cf_hooks c) ->
+  NoDup (launch c).
+Proof. exact launch_nodup. Qed.
+Print Assumptions C10_launch_once.
